@@ -43,7 +43,7 @@ def _doc(g, r, ti, files, dirpath, depth_budget=2, allow_fail=True):
     items = []
     keys = r.sample(gen.KEYS, r.randrange(1, 5))
     for k in keys:
-        c = r.randrange(21)
+        c = r.randrange(24)
         g.n += 1
         uid = g.n
         if c < 9:
@@ -70,8 +70,15 @@ def _doc(g, r, ti, files, dirpath, depth_budget=2, allow_fail=True):
             v = raw(r.choice(['!path:parent [data, f.txt]', '!path:file [x]', '!path:parent(1) [y]', '!path [rel, p]']))
         elif c == 15:
             v = raw(f'!xref {r.choice([kk for kk in keys if kk != k] or ["nowhere"])}')
-        elif c == 16:
+        elif c in (16, 20):
             v = raw(f'!unsafe {emit.emit(g.value(1))}')
+        elif c in (21, 22):
+            # a module imported for the first time while (maybe) another thread is in the middle of importing it
+            mod = r.choice(['simslow_m1', 'simslow_m2'])
+            v = raw(r.choice([f'!call:{mod}.target {{x: {uid}}}', f'!import {mod}.value', f'!bind:{mod}.target [t{ti}]']))
+        elif c == 19:
+            other = r.choice([kk for kk in keys if kk != k] or ['nowhere'])
+            v = raw(f'!call:simrec.f_t{ti}x{uid} {{x: !xref {other}, y: [!xref {other}]}}')
         elif c == 18:
             # byte-identical annotations in the files of all threads (anything keyed by the annotation text is shared)
             v = raw(r.choice(["!metadata{{'origin': 'common', 'n': 1}} " + emit.emit(g.scalar()),
@@ -137,6 +144,12 @@ FOCI = [['scalar_types'], ['default_filename', 'default_safe_flag', 'add_source'
 
 
 def _sched_spec(r):
+    spec = _sched_spec0(r)
+    spec['ext_p'] = r.choice([0, 0, 0.2, 0.6])     # extra pre-emption at simulated I/O / recorder / module-import points
+    return spec
+
+
+def _sched_spec0(r):
     c = r.randrange(12)
     seed = r.getrandbits(32)
     focus = r.choice(FOCI)
@@ -238,7 +251,7 @@ def _client(prog, out):
                 pass
             except Exception as e:
                 rec['exc'] = observe.exc_signature(e)
-            rec['calls'] = [e[1:] for e in recorder.LOG[log_start:] if e[0] == tname]
+            rec['calls'] = [e[1:] for e in recorder.LOG[log_start:] if e[0] == tname and not e[1].startswith('module-exec')]   # who happens to import a module first is not an observation
             sched.end_op()
             out.append(rec)
     return run
@@ -251,6 +264,7 @@ def _run(scenario, which, spec):
         files.update(p['files'])
     fs = simfs.SimFS(files, cwd=CWD, home=scenario.get('home', '/home/u')).install()
     recorder.install()
+    recorder.install_slow_modules()
     if scenario.get('warm'):
         from awesomeyaml.nodes.scalar import ConfigScalar
         for t in (int, float, bool, str, type(None)):
